@@ -148,7 +148,9 @@ def run(tier, seed, out, drv, facts):
     for name, toks in fams:
         check_family(out, name, toks, obs)
     # documented illegal forms
-    illegal = ["##a", "**a", "__a", "??a", "*a *b", "... *a", "... ...", "a,b", "a#", "*4", "_4", "?4", "_a+b", "*a+b", "?a+b", "#_", "#...", "*...", "_...", "?...", "d=...", "a, b"]
+    illegal = ["##a", "**a", "__a", "??a", "*a *b", "... *a", "... ...", "a,b", "a#", "*4", "_4", "?4", "_a+b", "*a+b", "?a+b", "#_", "#...", "*...", "_...", "?...", "d=...", "a, b",
+               # the comma rule is per axis: a bracket in ANOTHER axis does not excuse it
+               "a,b (a)", "a, b 2*(a+1)", "#a,b *c (a)", "(a) a,b", "n=a,b (3)", "a,b min(a,b)"]
     for spec in illegal:
         o = observe(spec)
         out.case(("illegal", spec), True)
@@ -161,7 +163,7 @@ def run(tier, seed, out, drv, facts):
         if oa != ob:
             out.violation(f"equiv:{a}~{b}", f"{a!r} and {b!r} must mean the same but observe {oa} vs {ob}", {"a": a, "b": b})
     # --- 2. model correspondence on the exhaustive token set (sampled in quick) + sequences
-    reduced = ["a", "#a", "*v", "*#v", "_", "...", "3", "#3", "a+1", "?a", "d=a", "#*w", "*_", "a,b", "b#", "**c"]
+    reduced = ["a", "#a", "*v", "*#v", "_", "...", "3", "#3", "a+1", "?a", "d=a", "#*w", "*_", "a,b", "b#", "**c", "(a)", "2*(a+1)", "#(3)"]
     seqs = [" ".join(c) for k in (0, 1, 2) for c in itertools.product(reduced, repeat=k)]
     sample = all_toks if thorough else [t for i, t in enumerate(all_toks) if i % 6 == seed % 6]
     specs = sample + seqs
